@@ -263,6 +263,7 @@ func c17Run(t *testing.T, plan c17Plan, dir string, st map[string]int, desc *[]s
 			}
 		}
 		viaHTTPNext := false
+		issuerKnown := false // the accepted root has been stored as an issuer by an earlier direct submission: a first submission over HTTP does not wait for storage
 		freshIssuer := map[int]bool{} // entries naming an issuer the log has not seen (first submission uploads it)
 		submit := func(e *simEntry, low bool) {
 			var preF waitEntryFunc
@@ -336,10 +337,18 @@ func c17Run(t *testing.T, plan c17Plan, dir string, st map[string]int, desc *[]s
 			der := chainOf[e.ID]
 			viaHTTP := viaHTTPNext && der != nil && plan.ReadOnly == 0 &&
 				(exp == "pool" || exp == "pool-in-sequencing" || exp == "refused-evicted-dup" || exp == "cache" || exp == "closed")
+			// a first submission of a certificate without SCTs over add-chain: the handler itself classifies it as high priority
+			httpFirst := viaHTTPNext && der != nil && plan.ReadOnly == 0 && !low && issuerKnown && !viaHTTP &&
+				(exp == "sequencer" || exp == "sequencer+evict" || exp == "ratelimit")
+			viaHTTP = viaHTTP || httpFirst
 			viaHTTPNext = false
 			if viaHTTP {
 				// the same chain posted to add-chain: a second submitter of an entry the log already knows
-				st["duplicates-over-http"]++
+				if httpFirst {
+					st["first-submissions-over-http"]++
+				} else {
+					st["duplicates-over-http"]++
+				}
 				src = map[string]string{"pool": "pool", "pool-in-sequencing": "pool", "refused-evicted-dup": "pool", "cache": "cache", "closed": "closed"}[exp]
 				w = &c17Waiter{id: len(waiters), entry: e, low: low, src: src, afterStop: stopSeen, http: true}
 				waiters = append(waiters, w)
@@ -370,6 +379,20 @@ func c17Run(t *testing.T, plan c17Plan, dir string, st map[string]int, desc *[]s
 					}
 				}()
 				synctest.Wait()
+				if httpFirst {
+					// the admission decision is read off the answer: none yet = admitted and waiting for the round
+					w.mu.Lock()
+					switch {
+					case !w.done:
+						src = "sequencer"
+					case w.code == http.StatusServiceUnavailable:
+						src = "ratelimit"
+					default:
+						src = fmt.Sprintf("http-%d", w.code)
+					}
+					w.src = src
+					w.mu.Unlock()
+				}
 			} else {
 				func() {
 					defer func() {
@@ -385,6 +408,9 @@ func c17Run(t *testing.T, plan c17Plan, dir string, st map[string]int, desc *[]s
 				}()
 				if f == nil {
 					return
+				}
+				if der != nil && src != "issuer" {
+					issuerKnown = true
 				}
 				w = &c17Waiter{id: len(waiters), entry: e, low: low, src: src, afterStop: stopSeen}
 				waiters = append(waiters, w)
@@ -465,8 +491,10 @@ func c17Run(t *testing.T, plan c17Plan, dir string, st map[string]int, desc *[]s
 					return
 				}
 				synctest.Wait()
-				if done, _, err := w.outcome(); !done || err != errPoolFull {
+				if done, _, err := w.outcome(); !done || (err != errPoolFull && !w.http) {
 					fail("rejected submission did not get the pool-full error immediately (done=%v err=%v)", done, err)
+				} else if w.http && (w.code != http.StatusServiceUnavailable || w.retry == "") {
+					fail("a submission rejected because the pool is full must get a retry-later answer (503 with Retry-After) over HTTP, got status %d, Retry-After %q: %v", w.code, w.retry, err)
 				}
 			case "pool-in-sequencing":
 				st["duplicates-of-entries-being-sequenced"]++
@@ -543,6 +571,7 @@ func c17Run(t *testing.T, plan c17Plan, dir string, st map[string]int, desc *[]s
 				nextID++
 				submitted = append(submitted, e)
 				lowOf[e.ID] = a.Kind == "low"
+				viaHTTPNext = e.ID%5 == 1 || e.ID%5 == 3
 				submit(e, a.Kind == "low")
 			}
 			quiesce("after action")
@@ -686,7 +715,7 @@ func TestVerifC17Admission(t *testing.T) {
 		}
 		nt := st["evictions"] > 0 || (st["stops"] > 0 && st["pending-failed-at-stop"] > 0)
 		var cls []string
-		for _, k := range []string{"evictions", "rejections", "pool-filled", "stops", "cancels", "read-only-stops", "sunset-errors", "pending-failed-at-stop", "submissions-after-stop", "resubmissions-of-acknowledged-after-stop", "duplicates-over-http", "duplicates-of-entries-being-sequenced", "submissions-with-a-new-issuer"} {
+		for _, k := range []string{"evictions", "rejections", "pool-filled", "stops", "cancels", "read-only-stops", "sunset-errors", "pending-failed-at-stop", "submissions-after-stop", "resubmissions-of-acknowledged-after-stop", "duplicates-over-http", "first-submissions-over-http", "duplicates-of-entries-being-sequenced", "submissions-with-a-new-issuer"} {
 			if st[k] > 0 {
 				cls = append(cls, k)
 			}
